@@ -650,7 +650,6 @@ func checkSentinelAgreementAndStaging(c *Ctx) {
 	}
 }
 
-
 // checkMutatorLocksPaired (R18.1 restricted to package cache): a refused mutation must leave the bug
 // usable — an editing method of the cache that returns with its mutex held makes every later query
 // and mutation on that bug hang.
